@@ -7,6 +7,7 @@
 //!      compile through the hook, load the table for the following P jobs
 //!  P <LR|GLR> <partial> <max_trees> <input-hex>     parse with the loaded table
 //!  X <...>  see cmds in other modules
+mod front;
 mod run;
 mod tab;
 
@@ -142,7 +143,9 @@ fn main() {
                 continue;
             }
         }
+        let mut rehang = false;
         let ans = match f[0] {
+            "F" => front::job(&f[1..]),
             "G" => {
                 let owned: Vec<String> = f[1..].iter().map(|s| s.to_string()).collect();
                 let fancy = f[10] == "1";
@@ -232,25 +235,35 @@ fn main() {
                     let input = unhex(f[4]);
                     let input: &'static str = Box::leak(input.into_boxed_str());
                     let m = run::matrix(input);
+                    // optional history: an input parsed first with the SAME parser object (result dropped)
+                    let prev: Option<&'static str> =
+                        f.get(5).map(|h| &*Box::leak(unhex(h).into_boxed_str()));
+                    run::PREV_DONE.store(prev.is_none(), std::sync::atomic::Ordering::SeqCst);
                     let r = with_watchdog(
                         move || {
                             if glr {
-                                run::run_glr(input, partial, max_trees)
+                                run::run_glr(input, partial, max_trees, prev)
                             } else if let Some((m, sd)) = custom {
-                                run::run_lr_custom(input, partial, m, sd)
+                                run::run_lr_custom(input, partial, m, sd, prev)
                             } else {
-                                run::run_lr(input, partial)
+                                run::run_lr(input, partial, prev)
                             }
                         },
                         3000,
                     );
-                    format!("parse {r} #{m}")
+                    if r == "timeout" && !run::PREV_DONE.load(std::sync::atomic::Ordering::SeqCst) {
+                        // the history parse itself hangs: that is its own input's finding, not this one's
+                        rehang = true;
+                        format!("parse skipped-prev-hang #{m}")
+                    } else {
+                        format!("parse {r} #{m}")
+                    }
                 }
             }
             _ => "unknown-job".to_string(),
         };
         writeln!(out, "{no} {ans}").unwrap();
-        if ans.contains("timeout") && (ans.starts_with("parse timeout") || ans.starts_with("dump timeout") || ans.starts_with("compile timeout")) {
+        if rehang || ans.contains("timeout") && (ans.starts_with("parse timeout") || ans.starts_with("dump timeout") || ans.starts_with("compile timeout")) {
             out.flush().unwrap();
             drop(out);
             use std::os::unix::process::CommandExt;
